@@ -23,7 +23,7 @@ from harness.common import run_guarded
 from harness import c14_quad as Q
 
 import magpylib as magpy
-from magpylib._src.fields import field_BH_dipole, field_BH_sphere, field_BH_circle
+from magpylib._src.fields import field_BH_dipole, field_BH_sphere, field_BH_circle, field_BH_polyline
 
 MAGNETS = ("Cuboid", "Cylinder", "CylinderSegment", "Sphere", "Tetrahedron", "TriangularMesh")
 CURRENTS = ("Circle", "Polyline")
@@ -202,6 +202,21 @@ class Scene:
             raise FieldRaised(f"{type(e).__name__}: {e}") from e
         return np.asarray(out, dtype=float).reshape(-1, 3)
 
+    def has_magnet(self):
+        return any(i["type"] in MAGNETS for i in self.info)
+
+    def jflag(self, pts):
+        """the polarization seen at the points (sum over the magnets containing them): constant on
+        every region of space that the magnet boundaries do not cut"""
+        try:
+            if isinstance(self.top, list):
+                out = magpy.getJ(self.top, pts, sumup=True)
+            else:
+                out = magpy.getJ(self.top, pts)
+        except Exception as e:   # pylint: disable=broad-except
+            raise FieldRaised(f"{type(e).__name__}: {e}") from e
+        return np.asarray(out, dtype=float).reshape(-1, 3)
+
     def wire_points(self, n=256):
         """sample points on all conductors and the positions of all dipoles: the singular set"""
         out = []
@@ -375,7 +390,7 @@ def link_disc(X, p, n, r0):
     Xn = np.roll(X, -1, axis=0)
     s = (X - p) @ n
     sn = (Xn - p) @ n
-    idx = np.nonzero(s * sn < 0)[0]
+    idx = np.nonzero((s < 0) != (sn < 0))[0]      # a point exactly in the plane counts as on the + side
     tot = 0
     for i in idx:
         t = s[i] / (s[i] - sn[i])
@@ -398,7 +413,7 @@ def link_fan(X, V):
         nrm = np.cross(v1 - v0, v2 - v0)
         sa = (X - v0) @ nrm
         sb = (Xn - v0) @ nrm
-        cand = np.nonzero(sa * sb < 0)[0]
+        cand = np.nonzero((sa < 0) != (sb < 0))[0]
         if len(cand) == 0:
             continue
         a = X[cand]
@@ -434,9 +449,9 @@ def threading_current(scene, geom):
 
 
 # ====================================================================== the oracle
-FLOOR = {("flux", False): 2e-6, ("flux", True): 2e-4, ("circ", False): 2e-6, ("circ", True): 3e-3}
+FLOOR = {("flux", False): 2e-6, ("flux", True): 1e-3, ("circ", False): 2e-6, ("circ", True): 3e-3}
 CLEAR = 0.04       # minimal distance from conductors / dipoles, relative to min(test size, source size)
-INCONCLUSIVE = 2e-3
+INCONCLUSIVE = 1e-2
 
 
 def case_cost(case):
@@ -486,7 +501,12 @@ def evaluate(case, seconds=1.5):
         init = max(8, 512 // geom.npatch) if cut else max(8, 64 // geom.npatch)
     else:
         init = 4 if geom.npatch == 6 else 8
-    res = Q.integrate(f, geom.dim, geom.npatch, init, geom.measure, 1e-8 if not cut else 1e-7, max_evals)
+    flagf = None
+    if cut and scene.has_magnet():
+        def flagf(pid, U):
+            return scene.jflag(geom.points(pid, U)[0])
+    res = Q.integrate(f, geom.dim, geom.npatch, init, geom.measure, 1e-8 if not cut else 1e-7, max_evals,
+                      flagf=flagf)
     out = {"evals": res.evals, "cut": cut, "dmin": dmin}
     if not res.finite:
         out.update(status="skipped", why="non-finite field value on the surface/loop (C15 territory)")
@@ -568,7 +588,65 @@ def gen_case(rng, law, kinds, coll=False):
     return None
 
 
-def sweep(ctx, n_per_kind, n_coll, seconds):
+def gen_special_case(rng, law, kind):
+    """surfaces / loops aligned with the symmetry axes and planes of an unrotated source at the
+    origin: a whole face or edge then lies on a set where the code takes a special-case branch
+    (r == 0 of Circle / Cylinder, x == 0 planes, the extension of a Polyline segment), which
+    randomly placed geometry never visits on a set of positive measure"""
+    for _ in range(40):
+        src = gen_source(rng, kind)
+        src["pos"] = [0.0, 0.0, 0.0]
+        src["rotvec"] = [0.0, 0.0, 0.0]
+        if kind == "Polyline":
+            s = rng.choice([0.5, 1.0, 2.0])
+            src["vertices"] = [[0, 0, 0], [s, 0, 0], [s, s, 0.5 * s], [0, s, 0], [0, 0, 0]]
+        if kind == "CylinderSegment":
+            # general position: keep the segment's own phi-faces out of the coordinate planes (a test face
+            # lying IN a magnet face would sample the code's on-surface convention on a set of positive
+            # measure, which is a statement about surface points, not about flux or circulation)
+            d = src["dimension"]
+            if abs(d[3] % 90.0) < 1e-6:
+                d[3] += 7.0
+            if abs(d[4] % 90.0) < 1e-6:
+                d[4] -= 7.0
+        case = {"law": law, "sources": [src], "coll": None, "focus": 0, "place": "special"}
+        scene = Scene(case)
+        rb = scene.info[0]["rb"] if scene.info[0]["rb"] > 0 else 0.3
+        ax = rng.randrange(3)
+        if kind in ("Circle", "Cylinder", "CylinderSegment") and rng.random() < 0.7:
+            ax = 2
+        if kind == "Polyline":
+            ax = 0
+        j, l = (ax + 1) % 3, (ax + 2) % 3
+        sf = loguniform(rng, 0.2, 5)
+        if law == "circ":
+            # rectangle with one edge on coordinate axis `ax`
+            if kind == "Polyline":
+                s = src["vertices"][1][0]
+                lo, hi = s * rng.choice([1.25, 1.5]), s * rng.choice([2.0, 3.0, 4.0])
+            else:
+                hi = rb * sf
+                lo = -hi if rng.random() < 0.7 else hi * 0.25
+            X = rb * rng.uniform(1.3, 4) * rng.choice([-1, 1])
+            Y = rb * rng.uniform(-0.5, 0.5)
+            V = []
+            for (t, u, w) in ((lo, 0.0, 0.0), (hi, 0.0, 0.0), (hi, X, Y), (lo, X, Y)):
+                v = [0.0, 0.0, 0.0]
+                v[ax], v[j], v[l] = t, u, w
+                V.append(v)
+            case["geom"] = {"kind": "polygon", "verts": V}
+        else:
+            a = [rb * sf * rng.uniform(0.4, 1) for _ in range(3)]
+            c = [rb * rng.uniform(-0.5, 0.5) for _ in range(3)]
+            c[ax] = a[ax] * rng.choice([-1, 1])          # one face exactly in the coordinate plane
+            case["geom"] = {"kind": "box", "c": c, "a": a, "rotvec": [0.0, 0.0, 0.0]}
+        case["size_factor"] = sf
+        if clearance_ok(scene, Geom(case["geom"]))[0]:
+            return case
+    return None
+
+
+def sweep(ctx, n_per_kind, n_coll, seconds, n_special=0):
     rng = ctx.rng
     plan = []
     for kind in KINDS:
@@ -580,10 +658,13 @@ def sweep(ctx, n_per_kind, n_coll, seconds):
         # keep expensive classes rare inside collections
         kinds = [x if x not in ("CylinderSegment", "TriangularMesh") or rng.random() < 0.3 else "Cuboid" for x in kinds]
         plan.append((rng.choice(["flux", "circ"]), kinds, rng.random() < 0.7))
+    for kind in KINDS:
+        for law in ("flux", "circ"):
+            plan += [(law, [kind], "special")] * n_special
     worst = {}
     for law, kinds, coll in plan:
         try:
-            case = gen_case(rng, law, kinds, coll)
+            case = gen_special_case(rng, law, kinds[0]) if coll == "special" else gen_case(rng, law, kinds, coll)
         except FieldRaised as e:
             ctx.bump(f"{law}:construction-raised")
             if len(ctx.notes) < 5:
@@ -604,6 +685,8 @@ def sweep(ctx, n_per_kind, n_coll, seconds):
         st = res["status"]
         ctx.bump(f"{law}:{st}")
         ctx.bump(f"{law}:{'+'.join(sorted(set(kinds))) if len(kinds) == 1 else 'collection'}")
+        if coll == "special":
+            ctx.bump(f"{law}:axis-aligned-special")
         if st in ("ok", "fail"):
             decade = int(math.floor(math.log10(case["size_factor"])))
             ctx.bump(f"size-decade:1e{decade}")
@@ -621,6 +704,11 @@ def sweep(ctx, n_per_kind, n_coll, seconds):
             wr[name] = max(wr.get(name, 0.0), ratio)
         ctx.count("field_evaluations", res.get("evals", 0))
         if st == "fail":
+            # confirm with a four times larger quadrature budget before believing it
+            res = evaluate(case, 4 * seconds)
+            if res["status"] != "fail":
+                ctx.bump(f"{law}:not-confirmed-with-larger-budget")
+                continue
             small = shrink_case(case, seconds)
             r2 = evaluate(small, seconds)
             if r2["status"] != "fail":
@@ -669,7 +757,7 @@ def parse_rows(out):
 
 
 CASES_HEADER = """From Coq Require Import ZArith List Floats.PrimFloat.
-From MV Require Import Model.CoreNum Model.CoreModel Model.CoreExec Model.LawsExec.
+From MV Require Import Model.CoreNum Model.CoreModel Model.CoreExec Model.LawsModel Model.LawsExec.
 Import ListNotations. Open Scope float_scope.
 """
 
@@ -681,7 +769,7 @@ def dy(rng, lo=-4.0, hi=4.0):
 def gen_rows(rng, n):
     rows = []
     for i in range(n):
-        which = ("dipole", "sphere", "circle")[i % 3]
+        which = ("dipole", "sphere", "circle", "polyline", "polysum")[i % 5]
         fld = "B" if rng.random() < 0.5 else "H"
         if which == "dipole":
             o = [dy(rng) for _ in range(3)]
@@ -695,6 +783,31 @@ def gen_rows(rng, n):
             d = rng.uniform(0.2, 5) * rng.choice([1, 1, 1, -1])
             o = list(runit(rng) * abs(d) / 2 * loguniform(rng, 0.05, 20))
             rows.append(("sphere", fld, o, d, [dy(rng, -2, 2) for _ in range(3)]))
+        elif which == "polyline":
+            p1 = [dy(rng) for _ in range(3)]
+            p2 = [dy(rng) for _ in range(3)]
+            x = rng.random()
+            if x < 0.6:
+                o = [dy(rng) for _ in range(3)]
+            elif x < 0.9:      # foot of the perpendicular beyond one end / between the ends
+                t = rng.choice([-3.0, -1.5, -0.25, 0.25, 0.5, 1.5, 4.0])
+                o = [a + t * (b - a) + 0.3 * dy(rng) for a, b in zip(p1, p2)]
+            elif x < 0.95:     # exactly on the supporting line (dyadic, exact in binary64)
+                p1 = [float(rng.randint(-4, 4)) for _ in range(3)]
+                p2 = [a + float(rng.choice([-2, -1, 1, 2])) for a in p1]
+                t = rng.choice([-2.0, 0.25, 0.5, 3.0])
+                o = [a + t * (b - a) for a, b in zip(p1, p2)]
+            else:              # zero-length segment
+                o, p2 = [dy(rng) for _ in range(3)], list(p1)
+            rows.append(("polyline", fld, o, p1, p2, dy(rng, -10, 10)))
+        elif which == "polysum":
+            k = rng.randint(3, 5)
+            vs = [[dy(rng) for _ in range(3)] for _ in range(k)]
+            if rng.random() < 0.8:
+                vs.append(list(vs[0]))
+            if rng.random() < 0.15:
+                vs.insert(1, list(vs[0]))     # a zero-length segment inside the chain
+            rows.append(("polysum", "H", [dy(rng) for _ in range(3)], vs, dy(rng, -10, 10)))
         else:
             d = rng.uniform(0.2, 5) * rng.choice([1, 1, -1])
             cur = dy(rng, -10, 10)
@@ -722,6 +835,16 @@ def impl_row(row):
                                                np.array([row[4]], dtype=float))[0]
         code = 1.0 if np.sqrt(o[0, 0] ** 2 + o[0, 1] ** 2 + o[0, 2] ** 2) > abs(row[3]) / 2 else 0.0
         return [code] + list(v)
+    if which == "polyline":
+        v = field_BH_polyline.BHJM_current_polyline(fld, np.array([row[2]], dtype=float),
+                                                    np.array([row[3]], dtype=float), np.array([row[4]], dtype=float),
+                                                    np.array([row[5]], dtype=float))[0]
+        return [None] + list(v)
+    if which == "polysum":
+        v = field_BH_polyline.current_vertices_field("H", np.array([row[2]], dtype=float),
+                                                     np.array([row[4]], dtype=float),
+                                                     vertices=np.array([row[3]], dtype=float))[0]
+        return [float(len(row[3]))] + list(v)
     o = np.array([row[2]], dtype=float)
     v = field_BH_circle.BHJM_circle(fld, o, np.array([row[3]], dtype=float), np.array([row[4]], dtype=float))[0]
     return [None] + list(v)
@@ -733,6 +856,11 @@ def coq_row(row):
         return f"run14_dipole {fld} {fhex(field_BH_dipole.MU0)} {fv(row[2])} {fv(row[3])}"
     if which == "sphere":
         return f"run14_sphere {fld} {fhex(field_BH_sphere.MU0)} {fv(row[2])} {fhex(row[3])} {fv(row[4])}"
+    if which == "polyline":
+        return (f"run14_polyline {fld} {fhex(field_BH_polyline.MU0)} {fv(row[2])} {fv(row[3])} {fv(row[4])} "
+                f"{fhex(row[5])}")
+    if which == "polysum":
+        return f"run14_polysum {fhex(row[4])} [{'; '.join(fv(v) for v in row[3])}] {fv(row[2])}"
     return f"run14_circle {fld} {fhex(field_BH_circle.MU0)} {fv(row[2])} {fhex(row[3])} {fhex(row[4])}"
 
 
@@ -782,11 +910,14 @@ def run(ctx):
         "search: one case = (sources with poses, optional collection pose, a closed box/sphere or a closed "
         "circle/polygon); distinct by canonical JSON; counted when the adaptive quadrature reached an error "
         "estimate below 2e-3 of max|field|*measure.  correspondence: one row of BHJM_dipole / BHJM_magnet_sphere / "
-        "BHJM_circle; non-trivial unless it falls into the Circle's unmodelled general branch")
+        "BHJM_circle / BHJM_current_polyline / current_vertices_field; non-trivial unless it falls into the Circle's "
+        "unmodelled general branch")
     ctx.trusted += [
-        "hand models dipole_BH / sphere_BH / circle_BH (on-axis and zero branches) of coq/Model/CoreModel.v "
-        "(owner C01), tied to BHJM_dipole / BHJM_magnet_sphere / BHJM_circle by the float correspondence of this "
-        "check (binary64 vm_compute vs numpy, rtol 1e-9): validates the model, proves nothing",
+        "hand models dipole_BH / sphere_BH / circle_BH (on-axis and zero branches) / polyline_H_br of "
+        "coq/Model/CoreModel.v (owner C01) and poly_sum_gen of coq/Model/LawsModel.v, tied to BHJM_dipole / "
+        "BHJM_magnet_sphere / BHJM_circle / BHJM_current_polyline / current_vertices_field by the float "
+        "correspondence of this check (binary64 vm_compute vs numpy, rtol 1e-9, all branches): validates the "
+        "model, proves nothing; NaN masks of the polyline wrapper are not modelled",
         "Coquelicot (Derive, is_derive, RInt, filterlim) and the standard-library real-number axioms listed "
         "under print_assumptions",
         "the integral laws themselves (flux through closed surfaces, circulation around closed loops) are NOT "
@@ -794,7 +925,8 @@ def run(ctx):
         "implementation (harness/c14_quad.py, linking numbers by signed crossing counts)",
     ]
     ctx.partial += ["C14_dipole_source_free_partial", "C14_sphere_exterior_source_free_partial",
-                    "C14_sphere_interior_source_free_partial"]
+                    "C14_sphere_interior_source_free_partial", "C14_circle_axis_ampere_partial",
+                    "C14_closed_polyline_source_free_partial"]
     built = ctx.build_props()
     if ctx.tier == "thorough" and built:
         ctx.coqchk("MV.Props.C14")
@@ -802,7 +934,8 @@ def run(ctx):
         run_guarded(ctx, lambda: correspondence(ctx, ctx.n(600, 6000)), "C14 correspondence")
     big = bool(ctx.broken)
     mult = 4 if big else 1
-    run_guarded(ctx, lambda: sweep(ctx, ctx.n(12, 100) * mult, ctx.n(40, 300) * mult, ctx.n(0.5, 1.5)),
+    run_guarded(ctx, lambda: sweep(ctx, ctx.n(12, 100) * mult, ctx.n(40, 300) * mult, ctx.n(0.5, 1.5),
+                                   ctx.n(3, 20) * mult),
                 "C14 quadrature sweep")
 
 
